@@ -341,6 +341,9 @@ def _validate_pickle_digits(digits, reference):
 
             new_digits.append(digit)
 
+        if len(new_digits) != 2:    # one value for the object, one for derivs
+            raise ValueError('invalid pickle digits: ' + repr(original_digits))
+
     except (ValueError, IndexError, TypeError):
         raise ValueError('invalid pickle digits: ' + repr(original_digits))
 
